@@ -108,7 +108,12 @@ def run_decode(ctx, r):
     c, zargs = thread_call(fn, "self.decoder.decode")
     n = node_of(fn, c)
     r.site(fn, c, "zfec decode(blocks, ids)")
-    ok = len(zargs) == 2 and nf(s.expand(n, zargs[0])) == ps[0] and order_preserving(s.expand(n, zargs[1]), ps[1])
+    ids = s.expand(n, zargs[1]) if len(zargs) == 2 else None
+    if isinstance(ids, ast.Name):      # a list built into a temporary
+        ds = s.rd.get(n.id, {}).get(ids.id, frozenset())
+        if len(ds) == 1 and C.PARAM_DEF not in ds:
+            ids = s.fnorm._def_value(cfg.nodes[next(iter(ds))], ids.id) or ids
+    ok = len(zargs) == 2 and nf(s.expand(n, zargs[0])) == ps[0] and order_preserving(ids, ps[1])
     r.require(ok, fn, fn.loc(c), "zfec is given (%s): blocks and share numbers are not passed in the caller's order" % (
         ", ".join(src(fn, a) for a in zargs)))
     for want, what in ((("len(%s)" % ps[0], "len(%s)" % ps[1]), "as many share numbers as blocks"),
@@ -203,7 +208,6 @@ def dominated_by_done(cfg, loop, target):
 
 def paired_lists(r, fn, call, what):
     """decode(A, B): A and B are lists filled pairwise in one loop from one (id, block) pair and truncated alike."""
-    idx_s = None
     a0, a1 = call.args[0], call.args[1]
     ok = isinstance(a0, ast.Name) and isinstance(a1, ast.Name) and a0.id != a1.id
     r.require(ok, fn, fn.loc(call), "%s: decode is not given two list variables: %s" % (what, src(fn, call)))
@@ -242,8 +246,13 @@ def paired_lists(r, fn, call, what):
             if b is not q1 and any(cfg.nodes[i] is inner or cfg.nodes[i].kind == "exit" for (i, _s) in vis):
                 r.violation(fn, fn.loc(q1.ast), "%s: an iteration can skip one of the two appends: blocks and share numbers get "
                             "out of step" % what)
+    # in-place reordering of one list breaks the pairing
+    for q in cfg.nodes:
+        for c in node_calls(q):
+            if isinstance(c.func, ast.Attribute) and isinstance(c.func.value, ast.Name) and c.func.value.id in apps \
+                    and c.func.attr in ("sort", "reverse", "pop", "remove", "insert", "extend", "clear"):
+                r.violation(fn, fn.loc(c), "%s: %s.%s() changes one of the two paired lists" % (what, c.func.value.id, c.func.attr))
     # truncations / rebinding between the loop and decode must be identical for both lists
-    cn = node_of(fn, call)
     trunc = {}
     for q in cfg.nodes:
         if q.kind == "stmt" and isinstance(q.ast, ast.Assign) and len(q.ast.targets) == 1 and isinstance(q.ast.targets[0], ast.Name) \
@@ -260,7 +269,6 @@ def paired_lists(r, fn, call, what):
 
 def run_callers(ctx, r):
     idx = ctx.idx
-    dec_params = first_positional_params(idx.func(DEC + ".decode"))
     # ---- decode callers
     for q, what in (("immutable.downloader.node:DownloadNode._decode_blocks", "immutable download"),
                     ("mutable.retrieve:Retrieve._decode_blocks", "mutable retrieve")):
